@@ -111,6 +111,39 @@ def repNorm (S : Schema) : Nat → Nat → Val → Val
 /-- same message value, possibly represented differently -/
 def Equiv (S : Schema) (fuel i : Nat) (v w : Val) : Prop := repNorm S fuel i v = repNorm S fuel i w
 
+/-! ### Unknown-field sets a decoder can have stored
+
+  `unknownOK`: at every level the unknown bytes are a sequence of complete records (as
+  `protowire.ConsumeField` accepts them) whose numbers are ≤ 2^29−1 and are not fields of that message. -/
+
+def unknownRecordsOK (fs : List FieldDesc) : (fuel : Nat) → Bytes → Bool
+  | 0, bs => bs.isEmpty
+  | fuel+1, bs =>
+    if bs.isEmpty then true
+    else match consumeTag bs, consumeField bs with
+      | .ok (num, _, _), .ok n =>
+        decide (num ≤ 536870911) && !(fs.any (fun f => f.num == num)) && decide (0 < n) &&
+          unknownRecordsOK fs fuel (bs.drop n)
+      | _, _ => false
+
+def unknownElem (child : Nat → Val → Bool) (e : Elem) (v : Val) : Bool :=
+  match e with
+  | .scalar _ => true
+  | .message i => v.isNone || child i v
+
+def unknownSlot (child : Nat → Val → Bool) (f : FieldDesc) (v : Val) : Bool :=
+  match f.shape with
+  | .singular => unknownElem child f.elem v
+  | .repeated _ => v.elems.all (unknownElem child f.elem)
+  | .map _ => v.elems.all (fun en => unknownElem child f.elem en.value)
+  | .oneof _ => (match v with | .one x => unknownElem child f.elem x | _ => true)
+
+def unknownOK (S : Schema) : Nat → Nat → Val → Bool
+  | 0, _, _ => true
+  | fuel+1, i, v =>
+    unknownRecordsOK (S.msg i).fields v.unknown.length v.unknown &&
+    ((S.msg i).fields.zip v.slots).all (fun p => unknownSlot (unknownOK S fuel) p.1 p.2)
+
 /-- erase unknown fields at every level (what DiscardUnknown must produce) -/
 def eraseElem (child : Nat → Val → Val) (e : Elem) (v : Val) : Val :=
   match e with
